@@ -536,12 +536,13 @@ Trace runIso(const IsoSpec& X) {
             switch (X.integ) { case I_RK3: ig.reset(new RungeKutta3Integrator(sys)); break; case I_VERLET: ig.reset(new VerletIntegrator(sys)); break; case I_RKF: ig.reset(new RungeKuttaFeldbergIntegrator(sys)); break;
                 case I_SEE2: ig.reset(new SemiExplicitEuler2Integrator(sys)); break; case I_RK2: ig.reset(new RungeKutta2Integrator(sys)); break; default: ig.reset(new RungeKuttaMersonIntegrator(sys)); }
             ig->setAccuracy(X.acc); ig->setInternalStepLimit(400);
+            bool inited = false;
             try {
-                ig->initialize(s); rec(ig->getState(), -1);
+                ig->initialize(s); inited = true; rec(ig->getState(), -1);
                 for (int k = 1; k <= X.nRep; ++k) { Integrator::SuccessfulStepStatus stt = ig->stepTo(X.T * k / X.nRep); rec(ig->getState(), (int)stt); }
                 how << "done";
             } catch (const std::exception& e) { how << "exception: " << e.what(); }
-            how << " | steps=" << ig->getNumStepsTaken() << " attempted=" << ig->getNumStepsAttempted() << " errTestFailures=" << ig->getNumErrorTestFailures() << " qProjections=" << ig->getNumQProjections()
+            if (inited) how << " | steps=" << ig->getNumStepsTaken() << " attempted=" << ig->getNumStepsAttempted() << " errTestFailures=" << ig->getNumErrorTestFailures() << " qProjections=" << ig->getNumQProjections()
                 << " uProjections=" << ig->getNumUProjections() << " projectionFailures=" << ig->getNumProjectionFailures() << " realizations=" << ig->getNumRealizations();
         } else {
             try {
@@ -656,6 +657,7 @@ void property(const pbt::Tape& t, pbt::Ctx& ctx) {
         Trace y0 = runIso(Y[0]); Trace a = runIso(X); Trace y1 = runIso(Y[1]); Trace b = runIso(X); Trace c2 = runIso(X); Trace y0b = runIso(Y[0]);
         (void)y1;
         auto cmp = [&](const Trace& p, const Trace& q, const std::string& what) { std::string d = diffTraces(p, q);
+            if (!d.empty() && p.end != q.end) d += "; runs end: '" + p.end.substr(0, 600) + "' vs '" + q.end.substr(0, 600) + "'";
             if (!d.empty()) { std::ostringstream o; o << "isolation history (" << what << "): the same model (" << (X.presc ? std::string("with ") + prescName[X.presc] + (X.targetInLoop() ? " inside" : " outside") + " the constrained loop" : std::string("nothing prescribed"))
                 << ", " << isoModeName[X.mode] << ") built and run again in this process gives a different result: " << d; ctx.fail(o.str()); }
             return d.empty(); };
